@@ -328,17 +328,44 @@ func runCLI(r *rand.Rand, dir string, thorough bool) {
 	}
 	prev := []byte("the previous content of the destination")
 	defs := []cmdDef{
-		{name: "extract", args: func(url, work string) []string { return []string{"extract", "-n", "3", "-s", url, idxFile, filepath.Join(work, "out")} },
-			prep:     func(work string) { must(os.WriteFile(filepath.Join(work, "out"), prev, 0644)) },
-			complete: func(work, _ string) bool { b, _ := os.ReadFile(filepath.Join(work, "out")); return bytes.Equal(b, blob) },
+		{name: "extract", args: func(url, work string) []string {
+			return []string{"extract", "-n", "3", "-s", url, idxFile, filepath.Join(work, "out")}
+		},
+			prep: func(work string) { must(os.WriteFile(filepath.Join(work, "out"), prev, 0644)) },
+			complete: func(work, _ string) bool {
+				b, _ := os.ReadFile(filepath.Join(work, "out"))
+				return bytes.Equal(b, blob)
+			},
 			extra: func(work string) J {
 				b, err := os.ReadFile(filepath.Join(work, "out"))
 				return J{"untouched": err == nil && bytes.Equal(b, prev)}
 			}},
+		{name: "extract-stats", args: func(url, work string) []string {
+			return []string{"extract", "--print-stats", "-n", "3", "-s", url, idxFile, filepath.Join(work, "out")}
+		},
+			prep: func(work string) { must(os.WriteFile(filepath.Join(work, "out"), prev, 0644)) },
+			complete: func(work, _ string) bool {
+				b, _ := os.ReadFile(filepath.Join(work, "out"))
+				return bytes.Equal(b, blob)
+			},
+			extra: func(work string) J {
+				b, err := os.ReadFile(filepath.Join(work, "out"))
+				return J{"untouched": err == nil && bytes.Equal(b, prev)}
+			}},
+		{name: "extract-k-stats", args: func(url, work string) []string {
+			return []string{"extract", "-k", "--print-stats", "-n", "3", "-s", url, idxFile, filepath.Join(work, "out")}
+		},
+			complete: func(work, _ string) bool {
+				b, _ := os.ReadFile(filepath.Join(work, "out"))
+				return bytes.Equal(b, blob)
+			}},
 		{name: "extract-k", args: func(url, work string) []string {
 			return []string{"extract", "-k", "-n", "3", "-s", url, idxFile, filepath.Join(work, "out")}
 		},
-			complete: func(work, _ string) bool { b, _ := os.ReadFile(filepath.Join(work, "out")); return bytes.Equal(b, blob) }},
+			complete: func(work, _ string) bool {
+				b, _ := os.ReadFile(filepath.Join(work, "out"))
+				return bytes.Equal(b, blob)
+			}},
 		{name: "untar-i", args: func(url, work string) []string {
 			return []string{"untar", "-i", "-n", "3", "-s", url, "--no-same-owner", tidxFile, filepath.Join(work, "tree")}
 		},
@@ -438,6 +465,68 @@ func runCLI(r *rand.Rand, dir string, thorough bool) {
 	}
 }
 
+// verify-index has no store requests to count: the signal is sent after a delay. The file differs from the index in its
+// last byte, so whatever happens first - the mismatch or the interruption - the command must not exit 0.
+func runVerifySignal(r *rand.Rand, dir string, thorough bool) {
+	blob := make([]byte, 24<<20)
+	r.Read(blob)
+	store := mkdir(filepath.Join(dir, "vstore"))
+	st, err := desync.NewLocalStore(store, desync.StoreOptions{})
+	must(err)
+	ck, err := desync.NewChunker(bytes.NewReader(blob), 16*1024, 64*1024, 256*1024)
+	must(err)
+	idx, err := desync.ChunkStream(context.Background(), ck, st, 4)
+	must(err)
+	idxFile := filepath.Join(dir, "v.caibx")
+	fo, _ := os.Create(idxFile)
+	idx.WriteTo(fo)
+	fo.Close()
+	blob[len(blob)-1] ^= 0x40
+	file := filepath.Join(dir, "altered")
+	must(os.WriteFile(file, blob, 0644))
+	delays := []int{0, 2, 5, 10, 20, 40, 80}
+	if thorough {
+		for d := 1; d < 120; d += 3 {
+			delays = append(delays, d)
+		}
+	}
+	for i, d := range delays {
+		for _, n := range []string{"1", "4"} {
+			sig := syscall.SIGINT
+			if i%2 == 1 {
+				sig = syscall.SIGTERM
+			}
+			cmd := exec.Command(binary, "verify-index", "-n", n, idxFile, file)
+			cmd.Env = append(os.Environ(), "HOME=/nonexistent")
+			var out bytes.Buffer
+			cmd.Stdout, cmd.Stderr = &out, &out
+			must(cmd.Start())
+			time.Sleep(time.Duration(d) * time.Millisecond)
+			cmd.Process.Signal(sig)
+			done := make(chan error, 1)
+			go func() { done <- cmd.Wait() }()
+			var werr error
+			hung := false
+			select {
+			case werr = <-done:
+			case <-time.After(60 * time.Second):
+				cmd.Process.Kill()
+				werr = <-done
+				hung = true
+			}
+			exit := 0
+			if werr != nil {
+				exit = 1
+				if ee, ok := werr.(*exec.ExitError); ok && ee.ExitCode() > 0 {
+					exit = ee.ExitCode()
+				}
+			}
+			w.Emit(J{"ev": "signal", "cmd": "verify-index", "sig": map[syscall.Signal]string{syscall.SIGINT: "INT", syscall.SIGTERM: "TERM"}[sig], "k": d, "signalled": true, "requests": 0,
+				"exit": exit, "hung": hung, "complete": false, "untouched": true, "out": firstLine(out.String())})
+		}
+	}
+}
+
 func firstLine(s string) string {
 	s = strings.TrimSpace(s)
 	if i := strings.LastIndexByte(s, '\n'); i >= 0 {
@@ -470,6 +559,7 @@ func main() {
 	}
 	if *mode == "all" || *mode == "cli" {
 		runCLI(r, mkdir(filepath.Join(*dir, "cli")), *thorough)
+		runVerifySignal(r, mkdir(filepath.Join(*dir, "verify")), *thorough)
 	}
 	must(w.Close())
 	os.RemoveAll(*dir)
